@@ -67,6 +67,20 @@ HasEmptyArr(j) ==
     [] j.t = "obj" -> \E i \in 1..Len(j.s) : HasEmptyArr(j.s[i])
     [] OTHER -> FALSE
 
+\* Two <circular reference> positions that name the SAME occurrence of an ancestor: two back edges
+\* into one container from within its own rendering.  The second one must be recognised like the
+\* first (a cycle check that forgets an ancestor once it has been met again renders it a second time,
+\* or never ends); the counting laws below cover it, this predicate only tells the harness which
+\* vectors are of that shape (evidence: the class is exercised).
+AncestorAt(vs) == CHOOSE i \in 1..(Len(vs) - 1) : vs[i].t = "ref" /\ vs[i].id = vs[Len(vs)].id
+RepeatedBack(v) ==
+  LET paths == {p \in SeqsUpTo(1..MaxS, nC + 1) : Follow(h, v, p) # <<>> /\ IsCircPos(Follow(h, v, p))} IN
+  \E p, q \in paths :
+     /\ p # q
+     /\ LET i == AncestorAt(Follow(h, v, p)) IN
+        /\ i = AncestorAt(Follow(h, v, q))
+        /\ SubSeq(p, 1, i - 1) = SubSeq(q, 1, i - 1)
+
 \* laws about one rendered value v (DESIGN.md section 5, C17 and C04)
 ValueLaws(v) ==
   LET pr == Pretty(h, v)
@@ -86,6 +100,8 @@ ValueLaws(v) ==
   /\ Count(pr, IsCircTok) = Cardinality({p \in paths : IsCircPos(W(p))})
   /\ Count(pr, IsAtomTok) = Cardinality({p \in paths : Rendered(W(p)) /\ Last(W(p)).t = "atom"})
   /\ Count(pr, IsOpen) = Cardinality({p \in paths : Rendered(W(p)) /\ Last(W(p)).t = "ref" /\ ~IsCircPos(W(p))})
+  \* an ancestor that is referred to twice from below itself is shown twice, not rendered again
+  /\ RepeatedBack(v) => Count(pr, IsCircTok) >= 2
   \* sharing without a cycle is printed in full: the text is that of the tree
   /\ ~cyc => pr = Pretty(EmptyHeap, Unfold(h, v))
   \* JSON: error iff a container is on its own path or a non-JSON leaf is reachable
@@ -124,7 +140,7 @@ Laws == done => (PrintLaws /\ \A i \in 1..Len(Roots) : ValueLaws(Roots[i]))
 \* printed value its JSON tree (or error) for the re-reading comparison
 VecPrint == done =>
   Emit([h |-> [i \in 1..nC |-> EncVal(h[i])], args |-> [i \in 1..Len(args) |-> EncVal(args[i])],
-        out |-> EncToks(Out),
+        out |-> EncToks(Out), rb |-> (\E i \in 1..Len(Roots) : RepeatedBack(Roots[i])),
         js |-> [i \in 1..Len(Roots) |-> EncVal(ToJsonV(h, Roots[i]))]])
 
 \* C04 vector: json(c1) / -o with $ = c1
